@@ -26,7 +26,7 @@ static Weights profile_weights(const std::string &prop) {
     s = {{P::O_QUIT, 1}, {P::O_CTX_PROBE, 0.7}, {P::O_REG, 0.7}, {P::O_DEREG, 1.5}, {P::O_START, 2}, {P::O_PAUSE, 1.5}, {P::O_RESUME, 1}, {P::O_STOP, 1.5}, {P::O_PILL, 0.5},
          {P::O_SUB, 3}, {P::O_UNSUB, 1.5}, {P::O_TELL, 4}, {P::O_PUB, 4}, {P::O_BCAST, 1}, {P::O_BECOME, 1.5}, {P::O_UNBECOME, 1.5}, {P::O_STASH, 3}, {P::O_UNSTASH, 1.5},
          {P::O_BATCH_SIZE, 0.7}, {P::O_REF_EVT, 0.8}, {P::O_DROP_EVT, 0.4}, {P::O_FD_REG, 0.5}, {P::O_FD_DEREG, 0.3}, {P::O_FD_WRITE, 0.5}, {P::O_ERRNO, 0.5},
-         {P::O_CTX_DEREG, 0.2}, {P::O_CTX_FINALIZE, 0.05}, {P::O_SET_TICK, 0.05}};
+         {P::O_CTX_DEREG, 0.2}, {P::O_CTX_FINALIZE, 0.05}, {P::O_SET_TICK, 0.05}, {P::O_CTX_REG, 0.15}};
     auto scale = [&](std::map<int, double> &m, std::initializer_list<int> codes, double f) { for (int c : codes) if (m.count(c)) m[c] *= f; else m[c] = f; };
     if (prop == "C03" || prop == "C08" || prop == "C02") t[P::O_LOOP] = 3;
     if (prop == "C01") { scale(t, {P::O_START, P::O_PAUSE, P::O_RESUME, P::O_STOP, P::O_DEREG, P::O_REG}, 2.0); scale(s, {P::O_START, P::O_PAUSE, P::O_RESUME, P::O_STOP, P::O_DEREG}, 2.0); scale(t, {P::O_FD_REG, P::O_FD_WRITE, P::O_TMR_REG, P::O_FLOOD, P::O_BATCH_TIMEOUT}, 0.3); }
@@ -36,8 +36,8 @@ static Weights profile_weights(const std::string &prop) {
     else if (prop == "C16") { scale(s, {P::O_STASH}, 3); scale(t, {P::O_UNSTASH}, 5); scale(s, {P::O_UNSTASH}, 2); scale(t, {P::O_TELL, P::O_PUB}, 1.5); }
     else if (prop == "C17") { scale(t, {P::O_BECOME, P::O_UNBECOME}, 4); scale(s, {P::O_BECOME, P::O_UNBECOME}, 3); scale(t, {P::O_TELL}, 1.5); }
     else if (prop == "C19") { scale(t, {P::O_SUB, P::O_START, P::O_PAUSE, P::O_RESUME, P::O_STOP, P::O_QUIT}, 1.6); t[P::O_SET_TICK] = 0.15; }
-    else if (prop == "C07") { t[P::O_CTX_REG] = 3; t[P::O_CTX_DEREG] = 3; t[P::O_CTX_FINALIZE] = 1; t[P::O_CTX_PROBE] = 3; scale(t, {P::O_REG, P::O_DEREG}, 1.8); s[P::O_CTX_DEREG] = 0.8; }
-    else if (prop == "C15") { scale(t, {P::O_REG, P::O_LOOKUP, P::O_CTX_PROBE}, 2); scale(s, {P::O_QUIT, P::O_CTX_PROBE, P::O_CTX_DEREG}, 3); s[P::O_SET_TICK] = 0.5; s[P::O_CTX_FINALIZE] = 0.3; }
+    else if (prop == "C07") { t[P::O_CTX_REG] = 3; t[P::O_CTX_DEREG] = 3; t[P::O_CTX_FINALIZE] = 1; t[P::O_CTX_PROBE] = 3; scale(t, {P::O_REG, P::O_DEREG}, 1.8); s[P::O_CTX_DEREG] = 0.8; s[P::O_CTX_REG] = 0.8; }
+    else if (prop == "C15") { scale(t, {P::O_REG, P::O_LOOKUP, P::O_CTX_PROBE}, 2); scale(s, {P::O_QUIT, P::O_CTX_PROBE, P::O_CTX_DEREG}, 3); s[P::O_SET_TICK] = 0.5; s[P::O_CTX_FINALIZE] = 0.3; s[P::O_CTX_REG] = 0.8; }
     else if (prop == "C03" || prop == "C20") { scale(t, {P::O_FD_REG, P::O_FD_DEREG, P::O_FD_WRITE, P::O_TMR_REG, P::O_TMR_DEREG, P::O_SRC_REG, P::O_SRC_DEREG, P::O_SRC_FIRE, P::O_TASK_RELEASE}, 3); scale(s, {P::O_ERRNO}, 4); }
     else if (prop == "C09") { scale(t, {P::O_FD_REG, P::O_FD_DEREG, P::O_TMR_REG, P::O_TMR_DEREG, P::O_SUB, P::O_UNSUB}, 3); }
     else if (prop == "C18") {
@@ -137,13 +137,15 @@ static rc::Gen<std::vector<Op>> gen_phrase(const Weights &w, int nmods, const st
         for (long i = 0; i < std::get<3>(t); i++) v.push_back(mkop(P::O_TELL, std::get<1>(t), std::get<0>(t)));
         v.push_back(std::get<4>(t) ? mkop(P::O_DRAIN) : mkop(P::O_DISPATCH, 0, 0, std::get<3>(t)));
         return v; });
-    auto tb = gen::map(gen::tuple(slot, slot, gens::weighted_values<long>({{2, 50}, {3, 100}, {3, 200}, {2, 500}, {1, 1000}}), gens::range<long>(1, 7), gens::range<long>(2, 14), gens::weighted_values<long>({{1, 0}, {2, 3}, {2, 12}, {2, 30}, {1, 80}}), gens::range<long>(1, 5)),
+    auto tb = gen::map(gen::tuple(slot, slot, gens::weighted_values<long>({{2, 50}, {3, 100}, {3, 200}, {2, 500}, {1, 1000}, {1, 65536}, {1, 131072}, {1, 1000000}}), gens::range<long>(1, 7), gens::range<long>(2, 14), gens::weighted_values<long>({{1, 0}, {2, 3}, {2, 12}, {2, 30}, {1, 80}}), gens::range<long>(1, 5)),
         [](std::tuple<int, int, long, long, long, long, long> t) {
             int s = std::get<0>(t), r = std::get<1>(t);
             std::vector<Op> v{mkop(P::O_SET_TB, s, 0, std::get<2>(t), std::get<3>(t))};
             const long variant = (std::get<2>(t) / 50 + std::get<3>(t) + std::get<4>(t)) % 6, topic = std::get<4>(t) % 4;
             if (variant <= 2) v.insert(v.begin(), mkop(P::O_SUB, s, 0, topic, 0)); // subscribed before the bucket exists
-            for (long i = 0; i < std::get<4>(t); i++) { v.push_back(mkop(P::O_TELL, s, r)); if (std::get<5>(t) % 3 == 0 && i % 2 == 1) { v.push_back(mkop(P::O_PAUSE, s)); v.push_back(mkop(P::O_RESUME, s)); } }
+            const long nburst = std::get<4>(t);
+            if (std::get<2>(t) >= 60000) v.push_back(mkop(P::O_BECOME, s, 0, 1, 300)); // very fast buckets need a long back-to-back series to be exceeded at all
+            for (long i = 0; i < nburst; i++) { v.push_back(mkop(P::O_TELL, s, r)); if (std::get<2>(t) < 60000 && std::get<5>(t) % 3 == 0 && i % 2 == 1) { v.push_back(mkop(P::O_PAUSE, s)); v.push_back(mkop(P::O_RESUME, s)); } }
             // other classes of token-consuming calls, issued when the burst has (probably) emptied the bucket: refused calls must have no effect
             switch (variant) {
             case 0: v.push_back(mkop(P::O_UNSUB, s, 0, topic)); v.push_back(mkop(P::O_PUB, r, 0, topic, 0)); break;
@@ -174,11 +176,12 @@ static rc::Gen<std::vector<Op>> gen_phrase(const Weights &w, int nmods, const st
         }
         v.push_back(mkop(P::O_DISPATCH, 0, 0, std::get<5>(t)));
         return v; });
-    auto livecycle = gen::map(gen::tuple(slot, gens::weighted_values<long>({{3, 3}, {3, 4}, {3, 5}, {3, 6}, {1, 7}}), gens::range<long>(0, 3), gens::range<long>(1, 4), gens::range<long>(0, 4)), [](std::tuple<int, long, long, long, long> t) {
+    auto livecycle = gen::map(gen::tuple(slot, gens::weighted_values<long>({{3, 3}, {3, 4}, {3, 5}, {3, 6}, {1, 7}}), gens::range<long>(0, 3), gens::range<long>(1, 4), gens::range<long>(0, 6)), [](std::tuple<int, long, long, long, long> t) {
         int s = std::get<0>(t); long kind = std::get<1>(t), key = std::get<2>(t);
         std::vector<Op> v{mkop(P::O_SRC_REG, s, 0, kind, key)};
         if (std::get<4>(t) == 0) v.push_back(mkop(P::O_SRC_REG, s, 0, kind, key)); // duplicate
         if (kind == 6) v.push_back(mkop(P::O_TASK_RELEASE, 0, 0, key)); else v.push_back(mkop(P::O_SRC_FIRE, 0, 0, kind, key));
+        if (std::get<4>(t) == 3) { v.push_back(mkop(P::O_PAUSE, s)); v.push_back(mkop(P::O_RESUME, s)); } // the source is ready (task finished, signal pending, ...) but not dispatched yet: pause and resume re-create its descriptor
         v.push_back(mkop(P::O_DISPATCH, 0, 0, std::get<3>(t)));
         if (std::get<4>(t) == 1) v.push_back(mkop(P::O_SRC_DEREG, s, 0, kind, key));
         if (std::get<4>(t) == 2) v.push_back(mkop(P::O_STOP, s));
@@ -209,18 +212,61 @@ static rc::Gen<std::vector<Op>> gen_phrase(const Weights &w, int nmods, const st
         v.push_back(mkop(P::O_SLEEP, 0, 0, std::get<3>(t))); v.push_back(mkop(P::O_DISPATCH, 0, 0, 1));
         v.push_back(mkop(P::O_SLEEP, 0, 0, std::get<3>(t))); v.push_back(mkop(P::O_DISPATCH, 0, 0, 1));
         return v; });
+    // a PAUSED subscriber of the module notifications while every other module leaves RUNNING; it is resumed before the loop turns again
+    auto pausedsub = gen::map(gen::tuple(slot, gens::weighted_values<long>({{3, 9}, {1, 8}, {2, 13}, {2, 14}}), gens::vec<long>(3, 3, gens::range<long>(0, 4)), gens::range<long>(1, 4)), [nmods](std::tuple<int, long, std::vector<long>, long> t) {
+        int sub = std::get<0>(t);
+        std::vector<Op> v{mkop(P::O_SUB, sub, 0, std::get<1>(t), 0), mkop(P::O_DISPATCH, 0, 0, 2), mkop(P::O_PAUSE, sub)};
+        int k = 0;
+        for (int x = 0; x < nmods; x++) if (x != sub) { long how = std::get<2>(t)[k++ % 3]; v.push_back(mkop(how == 0 ? P::O_STOP : how == 1 ? P::O_PAUSE : how == 2 ? P::O_DEREG : P::O_STOP, x)); }
+        v.push_back(mkop(P::O_RESUME, sub)); v.push_back(mkop(P::O_DISPATCH, 0, 0, std::get<3>(t)));
+        return v; });
+    // handler stack operations refused by an empty token bucket must leave the stack alone
+    auto tbbecome = gen::map(gen::tuple(slot, slot, gens::range<long>(0, 4), gens::weighted_values<long>({{2, 50}, {1, 100}}), gens::range<long>(0, 3)), [](std::tuple<int, int, long, long, long> t) {
+        int s = std::get<0>(t), f = std::get<1>(t); long h = std::get<2>(t);
+        std::vector<Op> v{mkop(P::O_BECOME, s, 0, h), mkop(P::O_BECOME, s, 0, (h + 1) % 4), mkop(P::O_SET_TB, s, 0, std::get<3>(t), 1)};
+        if (std::get<4>(t) == 0) v.push_back(mkop(P::O_UNBECOME, s)); else if (std::get<4>(t) == 1) v.push_back(mkop(P::O_BECOME, s, 0, (h + 2) % 4)); else { v.push_back(mkop(P::O_UNBECOME, s)); v.push_back(mkop(P::O_UNBECOME, s)); }
+        v.push_back(mkop(P::O_TELL, f, s)); v.push_back(mkop(P::O_DISPATCH, 0, 0, 2));
+        v.push_back(mkop(P::O_SET_TB, s, 0, 0, 1)); v.push_back(mkop(P::O_UNBECOME, s)); v.push_back(mkop(P::O_TELL, f, s)); v.push_back(mkop(P::O_DISPATCH, 0, 0, 2)); v.push_back(mkop(P::O_UNBECOME, s));
+        return v; });
+    if (prop == "C17") {
+        auto rest = gens::weighted<std::vector<Op>>({{35, single}, {10, deliver}, {4, pubdeliver}, {2, burst}, {4, loopcycle}, {40, become_cycle}, {4, stash_cycle}, {1, batch}, {1, fdcycle}});
+        return gens::weighted<std::vector<Op>>({{95, rest}, {5, tbbecome}});
+    }
     if (prop == "C19" || prop == "C01") {
         std::vector<size_t> ws = prop == "C19" ? std::vector<size_t>{55, 6, 14, 2, 14, 1, 0, 1, 0, 1} : std::vector<size_t>{70, 8, 6, 1, 8, 2, 1, 1, 0, 1};
         auto rest = gens::weighted<std::vector<Op>>({{ws[0], single}, {ws[1], deliver}, {ws[2], pubdeliver}, {ws[3], burst}, {ws[4], loopcycle}, {ws[5], become_cycle}, {ws[6], stash_cycle}, {ws[7], batch}, {ws[9], fdcycle}});
-        return prop == "C19" ? gens::weighted<std::vector<Op>>({{93, rest}, {5, tickcycle}, {2, tickeval}}) : gens::weighted<std::vector<Op>>({{95, rest}, {1, tickcycle}, {4, tickeval}});
+        return prop == "C19" ? gens::weighted<std::vector<Op>>({{88, rest}, {5, tickcycle}, {2, tickeval}, {5, pausedsub}}) : gens::weighted<std::vector<Op>>({{95, rest}, {1, tickcycle}, {4, tickeval}});
+    }
+    // batching settings must not survive a stop: timeout (and size) configured, module stopped and started again, plain traffic afterwards
+    auto batchrestart = gen::map(gen::tuple(slot, slot, gens::weighted_values<long>({{2, 2}, {1, 5}}), gens::weighted_values<long>({{2, 0}, {1, 2}, {1, 3}}), gens::range<long>(0, 3), gens::range<long>(1, 4)), [](std::tuple<int, int, long, long, long, long> t) {
+        int s = std::get<0>(t), f = std::get<1>(t);
+        std::vector<Op> v{mkop(P::O_BATCH_TIMEOUT, s, 0, std::get<2>(t))};
+        if (std::get<3>(t)) v.push_back(mkop(P::O_BATCH_SIZE, s, 0, std::get<3>(t)));
+        if (std::get<4>(t) == 1) v.push_back(mkop(P::O_TELL, f, s));
+        if (std::get<4>(t) == 2) { v.push_back(mkop(P::O_PAUSE, s)); }
+        v.push_back(mkop(P::O_STOP, s)); v.push_back(mkop(P::O_START, s));
+        for (long i = 0; i < std::get<5>(t); i++) v.push_back(mkop(P::O_TELL, f, s));
+        v.push_back(mkop(P::O_DRAIN));
+        return v; });
+    if (prop == "C13") {
+        auto rest = gens::weighted<std::vector<Op>>({{35, single}, {8, deliver}, {20, pubdeliver}, {8, burst}, {4, loopcycle}, {1, become_cycle}, {1, stash_cycle}, {20, batch}, {8, fdcycle}});
+        return gens::weighted<std::vector<Op>>({{94, rest}, {6, batchrestart}});
     }
     if (prop == "C03") {
         auto rest = gens::weighted<std::vector<Op>>({{50, single}, {8, deliver}, {8, pubdeliver}, {3, burst}, {8, loopcycle}, {1, become_cycle}, {1, stash_cycle}, {2, batch}, {18, fdcycle}});
         return gens::weighted<std::vector<Op>>({{74, rest}, {18, livecycle}, {8, faultcycle}});
     }
+    // a poison pill reaches a module that still holds earlier messages in its batch queue (delivered by the handler run ahead of the stop)
+    auto pillbatch = gen::map(gen::tuple(slot, slot, gens::weighted_values<long>({{2, 2}, {2, 3}, {1, 5}}), gens::range<long>(1, 3), gens::range<long>(1, 3)), [](std::tuple<int, int, long, long, long> t) {
+        int x = std::get<0>(t), y = std::get<1>(t);
+        std::vector<Op> v{mkop(P::O_BATCH_SIZE, x, 0, std::get<2>(t))};
+        for (long i = 0; i < std::get<3>(t); i++) v.push_back(mkop(P::O_TELL, y, x));
+        v.push_back(mkop(P::O_DISPATCH, 0, 0, std::get<3>(t)));
+        v.push_back(mkop(P::O_PILL, y, x)); v.push_back(mkop(P::O_DISPATCH, 0, 0, std::get<4>(t) + 1));
+        return v; });
     if (prop == "C03" || prop == "C20" || prop == "C09" || prop == "C04") {
         size_t lw = prop == "C04" ? 6 : 18;
-        auto rest = (prop == "C04") ? gens::weighted<std::vector<Op>>({{55, single}, {10, deliver}, {10, pubdeliver}, {4, burst}, {6, loopcycle}, {3, become_cycle}, {4, stash_cycle}, {3, batch}, {5, fdcycle}, {3, overflow}})
+        auto rest = (prop == "C04") ? gens::weighted<std::vector<Op>>({{52, single}, {10, deliver}, {10, pubdeliver}, {4, burst}, {6, loopcycle}, {3, become_cycle}, {4, stash_cycle}, {3, batch}, {5, fdcycle}, {3, overflow}, {3, pillbatch}})
                                    : gens::weighted<std::vector<Op>>({{50, single}, {8, deliver}, {8, pubdeliver}, {3, burst}, {8, loopcycle}, {1, become_cycle}, {1, stash_cycle}, {2, batch}, {18, fdcycle}});
         return gens::weighted<std::vector<Op>>({{100 - lw, rest}, {lw, livecycle}});
     }
@@ -286,6 +332,7 @@ static rc::Gen<Prog> gen_prog(const rt::Args &args) {
                 for (int k = 0; k < P::CB_NKINDS; k++) p.mods[i].scripts[k] = std::get<0>(t)[i][k];
             }
             const long loopmode = std::get<0>(std::get<2>(t)) / 16;
+            { long h = 0; for (int i = 0; i < nmods; i++) h = h * 7 + std::get<1>(t)[i] + std::get<1>(std::get<2>(t))[i]; p.cyc = (h % 3) == 0; } // a third of the programs repeat their callback scripts cyclically
             Op c; c.code = P::O_CTX_REG; c.a = std::get<0>(std::get<2>(t)) % 16; p.ops.push_back(c);
             auto &pre = std::get<1>(std::get<2>(t));
             for (int i = 0; i < nmods; i++) {
